@@ -520,8 +520,7 @@ def gen_att(rng):
     return ["att", mode]
 
 
-# step descriptions that are not one short line of text; "" (an untitled step) is generated only when the tree treats it as a
-# step like any other (`empty_step_is_a_step`; hand-written corpus cases use it regardless)
+# step descriptions that are not one short line of text; "" is an untitled step, a step like any other (D39, repaired)
 _STEP_BLANK = [" ", "   ", "\t", " \t "]
 _STEP_LINES = ["a\nb", "\nleading newline", "trailing newline\n", "\n", "first\n\nthird", "a\r\nb", "one\ntwo\nthree\n"]
 
@@ -536,49 +535,6 @@ def gen_text(rng, empty_ok=True):
     return rng.choice(_DECOS)
 
 
-_EMPTY_STEP = {}
-
-
-def empty_step_is_a_step():
-    """does the Session under test treat `set_step("")` as a step like any other?  Probe on the real Session: set_step(""), a
-    log, set_step("x") — was the untitled step ENDED (a StepEnd fired for it)?  (An implementation that tests `if cursor.step:`
-    never ends it and `lcc.Thread.run`'s `end_step()` asserts on it: generated cases then keep "" out; C07's business.)"""
-    if "v" not in _EMPTY_STEP:
-        import lemoncheesecake.events as E
-        import lemoncheesecake.session as S
-        from lemoncheesecake.reporting import Report
-        from lemoncheesecake.testtree import BaseTest
-        seen = []
-
-        class RecEM(E.EventManager):
-            def fire(self, event):
-                seen.append((type(event).__name__, getattr(event, "step", None)))
-        old = S.Session._instance
-        tmp = tempfile.mkdtemp(prefix="lccverif-c06p-")
-        box = {}
-
-        def probe():
-            try:
-                session = S.Session(RecEM.load(), tmp, Report())
-                S.Session._instance = session
-                session.start_test(R._node_chain(["s", "t"], _session.md_of("t", 0), BaseTest))
-                session.set_step("")
-                session.log_info("x")
-                session.set_step("x")
-                box["v"] = ("StepEndEvent", "") in seen
-            except Exception:  # noqa — an implementation that rejects "" does not treat it as a step either
-                box["v"] = False
-        try:
-            th = threading.Thread(target=probe, name="lccverif-probe")
-            th.start()
-            th.join(20)
-        finally:
-            S.Session._instance = old
-            shutil.rmtree(tmp, ignore_errors=True)
-        _EMPTY_STEP["v"] = bool(box.get("v"))
-    return _EMPTY_STEP["v"]
-
-
 def gen_abort(rng):
     """an attachment operation that fails before (mostly) the file is written; one in four is not handled by the test"""
     return ["abort", rng.choice(_ABORT_HOWS), rng.random() < 0.75]
@@ -586,13 +542,13 @@ def gen_abort(rng):
 
 def gen_step(rng):
     """a step change; one in three sets the description of the current step AGAIN (`set_step("poll")` in a loop); one in four
-    has a description that is blank, several lines, very long or (where the tree takes it for a step) empty"""
+    has a description that is blank, several lines, very long or empty"""
     r = rng.random()
     if r < 0.30:
         return ["step", "again"]
     if r < 0.55:
         q = rng.random()
-        if q < 0.25 and empty_step_is_a_step():
+        if q < 0.25:
             return ["step", "lit", ""]
         if q < 0.50:
             return ["step", "lit", rng.choice(_STEP_BLANK)]
